@@ -151,3 +151,56 @@ Theorem C20_fallback_flatten :
     end.
 Proof. exact fallback_flatten. Qed.
 Print Assumptions C20_fallback_flatten.
+
+(* Sequences of operations on ONE Envelope object (flatten, encode_7bit with / without /
+   with a failing encoder, copy, pickle round trip, parse again, in-place header edits),
+   any length, any order: every flatten() returns the generator's rendering of the
+   headers as the earlier operations left them, and the current message - the object
+   remembers nothing else (no cached header block, no "already handled" flag) *)
+Theorem C20_flatten_reflects_current_state :
+  forall (hdr : Type) (hparse : bytes -> hdr * option bytes) (hgen : hdr -> bytes)
+         (hedit : N -> hdr -> option hdr) (ops : list op) (e : envelope hdr) (k : nat),
+  nth_error ops k = Some OFlatten ->
+  nth_error (trace hdr hparse hgen hedit ops e) k =
+    Some (ObsFlat (hgen (e_headers (state_at hdr hparse hgen hedit k ops e)))
+                  (e_message (state_at hdr hparse hgen hedit k ops e))).
+Proof. exact flatten_reflects_current_state. Qed.
+Print Assumptions C20_flatten_reflects_current_state.
+
+(* in particular: flatten, edit the headers object in place, flatten again - the second
+   flatten shows the edited headers *)
+Theorem C20_flatten_after_edit :
+  forall (hdr : Type) (hparse : bytes -> hdr * option bytes) (hgen : hdr -> bytes)
+         (hedit : N -> hdr -> option hdr) (pre : list op) (j : N) (h' : hdr) (e : envelope hdr),
+  let s := state_at hdr hparse hgen hedit (length pre) pre e in
+  hedit j (e_headers s) = Some h' ->
+  nth_error (trace hdr hparse hgen hedit (pre ++ [OFlatten; OEdit j; OFlatten]) e) (length pre + 2)
+  = Some (ObsFlat (hgen h') (e_message s)).
+Proof. exact flatten_after_edit. Qed.
+Print Assumptions C20_flatten_after_edit.
+
+(* encode_7bit() without an encoder refuses at EVERY call at which the body is 8-bit -
+   also the second call after a refusal, after a failed encoder, on a copy or an
+   unpickled envelope - and leaves the envelope as it was *)
+Theorem C20_7bit_refusal_every_call :
+  forall (hdr : Type) (hparse : bytes -> hdr * option bytes) (hgen : hdr -> bytes)
+         (hedit : N -> hdr -> option hdr) (ops : list op) (e : envelope hdr) (k : nat),
+  nth_error ops k = Some (OEncode None) ->
+  has_8bit (e_message (state_at hdr hparse hgen hedit k ops e)) = true ->
+  nth_error (trace hdr hparse hgen hedit ops e) k = Some ObsRefused
+  /\ effect hdr hparse hgen hedit (OEncode None) (state_at hdr hparse hgen hedit k ops e)
+     = state_at hdr hparse hgen hedit k ops e.
+Proof. exact refusal_every_call. Qed.
+Print Assumptions C20_7bit_refusal_every_call.
+
+(* a call with an encoder that returns normally either found an ASCII body (nothing
+   changed) or really converted: the envelope is the re-parse of the encoder's output *)
+Theorem C20_7bit_done_means_converted :
+  forall (hdr : Type) (hparse : bytes -> hdr * option bytes) (hgen : hdr -> bytes)
+         (hedit : N -> hdr -> option hdr) rc (e e' : envelope hdr),
+  step hdr hparse hgen hedit (OEncode rc) e = (e', ObsDone) ->
+  (has_8bit (e_message e) = false /\ e' = e)
+  \/ (has_8bit (e_message e) = true /\ exists f d, rc = Some f /\ f (join (flatten hdr hgen e)) = Some d
+        /\ e' = parse hdr hparse (e_sender e) (e_rcpts e) d).
+Proof. exact encode_done. Qed.
+Print Assumptions C20_7bit_done_means_converted.
